@@ -210,3 +210,103 @@ def value_pred(fn, node):
     def pred(n):
         return n.get("id") in ids or (n.get("k") == "ref" and n.get("decl") in decls)
     return pred
+
+
+def switch_table(fn, sw):
+    """{case value (int) or 'default': leaf} for a switch whose arms end in `return <expr>` or break/fall out; arms that
+    fall out of the switch map to 'fallout'. Anything else is an unrecognised idiom (AnalysisBroken)."""
+    body = sw.get("body")
+    if not (isinstance(body, dict) and body.get("k") == "compound"):
+        raise AnalysisBroken("switch body of %s is not a compound statement" % fn.sig)
+    table = {}
+    active = []
+    for st in body.get("body", []):
+        while isinstance(st, dict) and st.get("k") in ("case", "default"):
+            if st["k"] == "case":
+                v = const_int(st.get("val"))
+                if v is None:
+                    raise AnalysisBroken("non-constant case label in %s" % fn.sig)
+                active.append(v)
+            else:
+                active.append("default")
+            st = st.get("sub")
+        if not isinstance(st, dict):
+            continue
+        if st.get("k") == "return":
+            for a in active:
+                table[a] = st.get("e")
+            active = []
+        elif st.get("k") == "break":
+            for a in active:
+                table[a] = "fallout"
+            active = []
+        elif st.get("k") == "null":
+            continue
+        else:
+            raise AnalysisBroken("switch arm in %s does something other than return/break (%s)" % (fn.sig, st.get("k")))
+    for a in active:
+        table[a] = "fallout"
+    return table
+
+
+def eval_int(n, leaf):
+    """integer/boolean value of an expression; leaf(node) supplies values for non-literal leaves (None = unknown)"""
+    n = skip_copies(n)
+    if not isinstance(n, dict):
+        return None
+    v = leaf(n)
+    if v is not None:
+        return v
+    k = n.get("k")
+    if k in ("int", "char"):
+        return n["v"]
+    if k == "bool":
+        return int(n["v"])
+    if k == "unop":
+        x = eval_int(n.get("e"), leaf)
+        if x is None:
+            return None
+        return {"-": -x, "+": x, "!": int(not x), "~": ~x}.get(n["op"])
+    if k == "cast":
+        return eval_int(n.get("e"), leaf)
+    if k == "cond":
+        c = eval_int(n.get("cond"), leaf)
+        if c is None:
+            return None
+        return eval_int(n.get("t") if c else n.get("f"), leaf)
+    if k == "binop":
+        a, b = eval_int(n.get("lhs"), leaf), eval_int(n.get("rhs"), leaf)
+        op = n["op"]
+        if op == "&&":
+            if a == 0 or b == 0:
+                return 0
+            return None if a is None or b is None else 1
+        if op == "||":
+            if (a is not None and a != 0) or (b is not None and b != 0):
+                return 1
+            return None if a is None or b is None else 0
+        if a is None or b is None:
+            return None
+        try:
+            return {"+": a + b, "-": a - b, "*": a * b, "<": int(a < b), ">": int(a > b), "<=": int(a <= b), ">=": int(a >= b),
+                    "==": int(a == b), "!=": int(a != b), "&": a & b, "|": a | b, "^": a ^ b,
+                    "/": (a // b if b else None), "%": (a % b if b else None), "<<": a << b, ">>": a >> b}.get(op)
+        except Exception:
+            return None
+    if "cv" in n:
+        return n["cv"]
+    return None
+
+
+LOSSY_STRING_CALLS = ("trimmed", "simplified", "toLower", "toUpper", "toCaseFolded", "left", "right", "mid", "chopped", "chop", "truncate",
+                      "remove", "replace", "normalized", "section", "first", "last", "sliced", "toLatin1", "toHtmlEscaped")
+
+
+def lossy_wrappers(n):
+    """names of known lossy string calls applied on the way from the leaves of expression n to its value"""
+    out = []
+    for x in walk(n):
+        if x.get("k") == "call" and x.get("ck") == "member" and (x.get("callee") or "").split("::")[-1] in LOSSY_STRING_CALLS \
+                and strip_tmpl(x.get("cls") or "") in ("QString", "QByteArray", "QStringRef", "QStringView", "QLatin1String"):
+            out.append((x.get("callee") or "").split("::")[-1])
+    return out
